@@ -25,9 +25,9 @@ RULE = ('seeded random 3-axis signals: linear (a + b t, d + e t with non-paralle
         'constant readings only); distinct = generator parameters')
 ASSUMPTIONS = ['reference integrals by DOP853 at rtol 1e-13; rungs used for the order fit (>= 3 consecutive) satisfy max(|w|, signal frequency) * 1.5 h <= 0.3 (linear) / 0.12 (sinusoid) '
                'and error >= 100x the oracle floor (4 eps of the increment)', 'orders required: 3.5 (linear signals, from the statement: exact through the cubic term); 2.0 for sinusoids (the docstring names no order; with jittered stamps the max-over-intervals error of a rate sensor fell as h^2.49 in a thorough run, observed range 2.5..3.0; every coefficient / sign slip is decided by the linear clause, the sinusoid clause only guards against a drop to first order)']
-REQUIRED_OBS = ['structure_checked', 'order_fits', 'rungs_evaluated', 'imu_columns_permuted', 'pattern_one_late', 'pattern_two_rate', 'pattern_alternating',
+REQUIRED_OBS = ['excerpt_rows_compared', 'structure_checked', 'order_fits', 'rungs_evaluated', 'imu_columns_permuted', 'pattern_one_late', 'pattern_two_rate', 'pattern_alternating',
                 'pattern_ramp', 'pattern_gap', 'pattern_late_first', 'pattern_jitter']
-REQUIRED_CLASSES = {'all': ['linear-rate-uniform', 'linear-rate-irregular', 'linear-increment-uniform', 'linear-increment-irregular',
+REQUIRED_CLASSES = {'all': ['long-excerpt', 'linear-rate-uniform', 'linear-rate-irregular', 'linear-increment-uniform', 'linear-increment-irregular',
                             'sine-rate-uniform', 'sine-rate-irregular', 'sine-increment-uniform', 'sine-increment-irregular']}
 GY = ['gyro_x', 'gyro_y', 'gyro_z']
 AC = ['accel_x', 'accel_y', 'accel_z']
@@ -67,10 +67,15 @@ def setup():
 
 
 def cases(seed, tier):
-    classes = REQUIRED_CLASSES['all']
+    classes = [c for c in REQUIRED_CLASSES['all'] if c != 'long-excerpt']
     n = 240 if tier == 'quick' else 8000
     pats = ['jitter', 'one_late', 'two_rate', 'alternating', 'ramp', 'gap', 'jitter', 'late_first']
-    return [dict(seed=int(seed) * 1000003 + i, cls=classes[i % 8], pattern=pats[(i // 8) % 8], shuffled=(i // 4) % 3 == 1) for i in range(n)]
+    out = [dict(seed=int(seed) * 1000003 + i, cls=classes[i % 8], pattern=pats[(i // 8) % 8], shuffled=(i // 4) % 3 == 1) for i in range(n)]
+    # records of 10^5 samples and more: every row must be what the same samples give in a short excerpt (row-local formula; a size-gated code
+    # path - blocking, chunked temporaries - shows at its internal boundaries only)
+    for i in range(4 if tier == 'quick' else 40):
+        out.append(dict(seed=int(seed) * 1000003 + 500000 + i, cls='long-excerpt', cost=30))
+    return out
 
 
 def make_signal(rng, kind):
@@ -105,11 +110,53 @@ def order_fit(hs, err, floor, admissible):
     return float(sl), best
 
 
+def run_long_excerpt(case):
+    from pyins import strapdown
+    rng = np.random.Generator(np.random.PCG64(case['seed']))
+    n = int(rng.choice([70000, 100000, 140000, 270000]))
+    stype = str(rng.choice(['rate', 'increment']))
+    h = 0.01
+    dt = h * rng.uniform(0.5, 1.5, n) if rng.random() < 0.75 else np.full(n, h)
+    tt = rng.choice([0.0, 1e3]) + np.r_[0.0, np.cumsum(dt)]
+    # smooth random signals (sums of a few sinusoids), scaled to increments for the increment type
+    w = np.column_stack([np.sin(rng.uniform(0.1, 3) * tt + rng.uniform(0, 6)) * rng.uniform(0.1, 1.0) for _ in range(3)])
+    f = np.column_stack([np.sin(rng.uniform(0.1, 3) * tt + rng.uniform(0, 6)) * rng.uniform(1, 10) for _ in range(3)]) + np.array([0, 0, -9.8])
+    data = np.c_[w, f]
+    if stype == 'increment':
+        data = data * np.r_[dt[0], dt][:, None]
+    imu = pd.DataFrame(data, index=pd.Index(tt, name='time'), columns=GY + AC)
+    full = strapdown.compute_increments_from_imu(imu, stype)
+    out = list(PENDING)
+    vals = full.values
+    cuts = sorted(set([int(2 ** p) for p in range(9, 19) if 2 ** p < n - 10] + [int(k * 2 ** 16) for k in range(1, 5) if k * 2 ** 16 < n - 10]
+                      + [int(x) for x in rng.integers(10, n - 10, 12)] + [10000, 20000, 50000, 100000]))
+    worst = 0.0
+    for c in cuts:
+        if c >= n - 8:
+            continue
+        a, b = c - 6, c + 7                                   # samples a..b; increments rows a .. b-1 of the full record
+        ex = strapdown.compute_increments_from_imu(imu.iloc[a:b + 1], stype).values
+        ref = vals[a:b]
+        # the first row of an excerpt uses the documented first-row convention (previous interval := first interval): not compared
+        d = np.abs(ex[1:] - ref[1:]).max() / max(np.abs(ref[1:]).max(), 1e-300)
+        worst = max(worst, d)
+        bump('excerpt_rows_compared', len(ex) - 1)
+        if not d <= 1e-12:
+            i = int(np.argmax(np.abs(ex[1:] - ref[1:]).max(axis=1))) + 1
+            out.append(vio('record_length_dependence', f'{stype}: row {a + i} of a {n}-sample record differs from the same samples processed as a 14-sample excerpt by {d:.3e} '
+                           f'(relative): {ref[i].tolist()} vs {ex[i].tolist()}', stype=stype, stamps='irregular', row=a + i))
+            break
+    OBS['max_record_rows'] = max(OBS.get('max_record_rows', 0), n)
+    return dict(violations=out, obs=dict(OBS), nontrivial=True, sample=dict(cls='long-excerpt', n=n, stype=stype, worst=worst))
+
+
 def run_case(case):
     from pyins import strapdown
     PENDING.clear()
     OBS.clear()
     out = []
+    if case['cls'] == 'long-excerpt':
+        return run_long_excerpt(case)
     rng = np.random.Generator(np.random.PCG64(case['seed']))
     kind, stype, stamps = case['cls'].split('-')
     sig = make_signal(rng, kind)
